@@ -96,8 +96,14 @@ def game_check(prop, judged, tier, seed, fam_quick, fam_thorough, mc_roots_quick
         game.mc_engine(run, quick, prop)
     # (B) spec -> impl: TLC-enumerated families replayed into the real Game
     game.trace_dir(prop)
-    fams = families(run, fam_quick if quick else fam_thorough, seed, prop)
+    spec_list = fam_quick if quick else fam_thorough
+    fams = families(run, [x for x in spec_list if x[0] != "DPUSH"], seed, prop)
     jobs = game.family_traces(run, vh, prop, fams)
+    if any(x[0] == "DPUSH" for x in spec_list):
+        # this family is about what happens right AFTER a particular move: every reply to every move is played too
+        dp = families(run, [x for x in spec_list if x[0] == "DPUSH"], seed, prop + "dp")
+        jobs += game.family_traces(run, vh, prop, dp, per_chunk=60, succ=2, label="dpush")
+        fams += dp
     # (B) impl -> spec: randomized and search-shaped traces of the real Game
     n, games, plies, walk = play_quick if quick else play_thorough
     jobs += game.play_traces(run, vh, prop, n, games, plies, walk, seed)
@@ -168,15 +174,15 @@ def c01(tier, seed):
                assumptions=["C01 is judged at positions reachable by legal play (both kings present, side not to move not in check)"])
 
 
-FAMQ = [("CASTLE", 24), ("EP", 400), ("KXK", 300), ("PROMO", 40), ("DPUSH", 2)]
-FAMT = [("CASTLE", 2), ("EP", 24), ("KXK", 16), ("PROMO", 4)]
+FAMQ = [("CASTLE", 24), ("EP", 400), ("KXK", 300), ("PROMO", 40), ("DPUSH", 1)]
+FAMT = [("CASTLE", 2), ("EP", 24), ("KXK", 16), ("PROMO", 4), ("DPUSH", 1)]
 ALLROOTS = [START, KIWI, POS3, POS4, POS5, CAST, PROM, EPR]
 
 
 @check("C02")
 def c02(tier, seed):
     game_check("C02", {"C02"}, tier, seed,
-               fam_quick=[("CASTLE", 16), ("EP", 400), ("KXK", 600), ("PROMO", 24), ("DPUSH", 1)], fam_thorough=FAMT + [("DPUSH", 1)],
+               fam_quick=[("CASTLE", 16), ("EP", 400), ("KXK", 600), ("PROMO", 24), ("DPUSH", 1)], fam_thorough=FAMT,
                mc_roots_quick=[CAST, EPR], mc_depth_quick=2, mc_roots_thorough=ALLROOTS, mc_depth_thorough=3,
                invariants=["InvSane"],
                play_quick=(14, 3, 50, 1), play_thorough=(56, 8, 120, 2),
@@ -737,12 +743,12 @@ def c08(tier, seed):
 @check("C10")
 def c10(tier, seed):
     def build(run, vh, quick, rnd):
-        classes = srch.solver_positions(run, seed, 700 if quick else 60, True, "C10")
+        classes = srch.solver_positions(run, seed, 350 if quick else 60, True, "C10")
         m1 = classes.get("m1", [])
         m2 = classes.get("m2", [])
         if quick:
             m1 = rnd.sample(m1, min(len(m1), 25))
-            m2 = rnd.sample(m2, min(len(m2), 10))
+            m2 = rnd.sample(m2, min(len(m2), 36))
         dead = classes.get("mate", []) + classes.get("stale", [])
         extra_m1 = ["6k1/5ppp/8/8/8/8/8/R5K1 w - - 0 1", "r1bqkb1r/pppp1ppp/2n2n2/4p2Q/2B1P3/8/PPPP1PPP/RNB1K1NR w KQkq - 4 4",
                     "6k1/8/8/8/8/8/r4PPP/6K1 b - - 0 1"]
@@ -1115,6 +1121,10 @@ def c13(tier, seed):
     def go_of(g):
         if g["kind"] == "movetime":
             return "go movetime %d" % g["mt"]
+        if g["kind"] == "both":
+            w, b = (g["own"], g["opp"]) if g["side"] == "w" else (g["opp"], g["own"])
+            wi, bi = (g["inc"], g["oinc"]) if g["side"] == "w" else (g["oinc"], g["inc"])
+            return "go wtime %d btime %d winc %d binc %d movetime %d" % (w, b, wi, bi, g["mt"])
         w, b = (g["own"], g["opp"]) if g["side"] == "w" else (g["opp"], g["own"])
         wi, bi = (g["inc"], g["oinc"]) if g["side"] == "w" else (g["oinc"], g["inc"])
         return "go wtime %d btime %d winc %d binc %d" % (w, b, wi, bi)
@@ -1131,6 +1141,9 @@ def c13(tier, seed):
             sessions.append({"id": "grid-%s-%d" % (bname, k), "binary": b, "steps": steps})
     # "announced within it": small budgets, no stop; the engine must answer by itself
     timed = []
+    for side in ("w", "b"):
+        timed.append({"id": "timed-both-%s" % side, "binary": binary,
+                      "steps": [{"send": POS[side]}, {"send": "go wtime 300000 btime 300000 winc 0 binc 0 movetime 150"}, {"waitbest": 8}, {"quit": True}]})
     for mt in [0, 1, 4, 5, 6, 20, 50, 120, 300]:
         for side in ("w", "b"):
             timed.append({"id": "timed-movetime-%d-%s" % (mt, side), "binary": binary,
@@ -1419,6 +1432,70 @@ def c15(tier, seed):
             if p.returncode != 0:
                 open(out, "a").write(json.dumps({"ev": "panic", "msg": "mobility driver died rc=%d %s" % (p.returncode, p.stderr[-300:]), "root": "mobility"}) + "\n")
             mob.append((out, "vh(checked) mobility --material %d --seed %d" % (material, seed * 10 + k)))
+    # boards the FEN reader accepts although no game reaches them: pawns on the first / eighth rank, rights without rooks,
+    # en-passant squares without pawns, kings in contact ... everything is exercised on the checked harness
+    def weird_fen(r):
+        cells = ["."] * 64
+        sq = list(range(64))
+        r.shuffle(sq)
+        cells[sq[0]] = "K"
+        cells[sq[1]] = "k"
+        budget = {"w": 8, "b": 8}
+        k = 2
+        for side, letters in (("w", "PPPPQRBN"), ("b", "ppppqrbn")):
+            base = {"Q": 1, "R": 2, "B": 2, "N": 2}
+            counts = {}
+            for _ in range(r.randrange(0, 9)):
+                c = r.choice(letters)
+                up = c.upper()
+                if up == "P":
+                    if budget[side] <= 0:
+                        continue
+                    budget[side] -= 1
+                else:
+                    counts[up] = counts.get(up, 0) + 1
+                    if counts[up] > base[up]:
+                        if budget[side] <= 0:
+                            continue
+                        budget[side] -= 1
+                # pawns are drawn towards the back ranks on purpose
+                if up == "P" and r.random() < 0.5:
+                    s = r.choice([x for x in range(64) if cells[x] == "." and (x < 8 or x >= 56)] or [sq[k]])
+                else:
+                    s = sq[k]
+                    k += 1
+                if cells[s] == ".":
+                    cells[s] = c
+        rows = []
+        for rr in range(7, -1, -1):
+            run_, t = 0, ""
+            for ff in range(8):
+                x = cells[rr * 8 + ff]
+                if x == ".":
+                    run_ += 1
+                else:
+                    t += (str(run_) if run_ else "") + x
+                    run_ = 0
+            rows.append(t + (str(run_) if run_ else ""))
+        side = r.choice("wb")
+        cast = "".join(c for c in "KQkq" if r.random() < 0.3) or "-"
+        ep = r.choice(["-", "-", r.choice("abcdefgh") + ("6" if side == "w" else "3")])
+        return "%s %s %s %s 0 1" % ("/".join(rows), side, cast, ep)
+    weird = [weird_fen(rnd) for _ in range(1400 if quick else 20000)]
+
+    def run_weird(ic):
+        i, chunk = ic
+        wf = os.path.join(d, "weird-%d.fens" % i)
+        open(wf, "w").write("\n".join(chunk) + "\n")
+        wo = os.path.join(d, "weird-%d.ndjson" % i)
+        pw = core.sh([vhc, "fens", "--fens", wf, "--out", wo, "--succ", "1"], check=False, timeout=1800)
+        if pw.returncode != 0:
+            # a non-unwinding panic (violated unsafe precondition) aborts the process: attribute it to the chunk
+            with open(wo, "a") as f:
+                f.write(json.dumps({"ev": "panic", "msg": "checked harness died on an accepted FEN rc=%d %s" % (pw.returncode, pw.stderr[-300:]),
+                                    "root": "one of: " + " | ".join(chunk[:3]) + " ..."}) + "\n")
+        return (wo, "vh(checked) fens: random boards the FEN reader accepts (pawns on back ranks, rights without rooks, ...) chunk %d" % i)
+    mob += core.pmap(run_weird, [(i, weird[i::core.NPROC]) for i in range(core.NPROC)])
     # known monster boards must be refused (or stay within the buffer)
     mf = os.path.join(d, "monsters.fens")
     open(mf, "w").write("\n".join(MONSTERS) + "\n")
@@ -1428,7 +1505,7 @@ def c15(tier, seed):
     pj = game.play_traces(run, vhc, "C15", 6 if quick else 28, 3 if quick else 8, 60 if quick else 150, 2, seed)
     fams = families(run, [("PROMO", 200 if quick else 20), ("EP", 4000 if quick else 400), ("CASTLE", 300 if quick else 30)], seed, "C15")
     fj = game.family_traces(run, vhc, "C15", fams)
-    game.judge_traces(run, pj + fj + mob + [(mo, "vh(checked) fens monsters")], {"C15"})
+    game.judge_traces(run, pj + fj + mob + [(mo, "vh(checked) fens monsters")], {"C15"}, panic_filter=game.bounds_panic)
     # self-play outcome judged here (a crash is a crash): a panic or a hang is the violation
     for e in sp:
         run.cov["evaluations"] += 1
